@@ -21,7 +21,7 @@ def decl_specs(tier):
         if len(names) == 1 and w == 'a':
             specs.append({'names': list(names), 'wrapper': w, 'local': True})
             specs.append({'names': list(names), 'wrapper': 'b', 'local': True})
-    for c in ('r2i', 'sd', 'srd', 'ord', 'rsd', 'od', 'rbag', 'i2d', 'd1q', 'r1', 'rs'):
+    for c in ('r2i', 'sd', 'srd', 'ord', 'rsd', 'od', 'rbag', 'i2d', 'd1q', 'b44d', 'r1', 'rs'):
         for d in ('r2i', 'sd', 'rvec', 'd2', 'b44'):
             specs.append({'names': [c, d], 'wrapper': 'a', 'local': True})
             specs.append({'names': [c, d], 'wrapper': 'a', 'opts': {'generate_for_pack': False, 'generate_for_unpack': False}})
@@ -158,6 +158,22 @@ def check_decl(dc, st, tier, only=None):
             if len(vals) >= 2:
                 break
     names = ir.value_fields(dc.P)
+    # the falsy value of each kind as a keyword (0, b'', [], an explicit None): it must override like any other
+    falsy = {}
+    for fname, node in dc.P['fields']:
+        k = node['k']
+        if k in ('int', 'bits'):
+            falsy[fname] = 0
+        elif k == 'data' and not (node['mode'] == 'size' and node['sp'] == 'const'):
+            falsy[fname] = b''
+        elif k == 'seq':
+            falsy[fname] = []
+        elif k == 'opt':
+            falsy[fname] = None
+    for fname, v in falsy.items():
+        check_kw(dc, st, {fname: v}, dflt, 'falsy keyword')
+    if len(falsy) > 1:
+        check_kw(dc, st, dict(falsy), dflt, 'falsy keyword')
     for v in vals:
         for k in range(1, len(names) + 1):
             for sub in itertools.combinations(names, k):
